@@ -23,6 +23,8 @@ pub struct Mods {
     pub controls: Option<Vec<Ctl>>,
     pub timeout_ms: Option<u64>,
     pub opts: Option<(u8, bool, i32, i32)>,
+    /// each modifier is set twice, first to a throw-away value: the last call wins
+    pub twice: bool,
 }
 
 #[derive(Clone, Debug)]
@@ -65,6 +67,16 @@ fn serve(mut s: UnixStream) -> Vec<(Vec<u8>, Result<ReqMsg, String>)> {
                 Req::Abandon(_) => {}
                 _ if b == "silent" => {}
                 _ if b == "close" => return log,
+                Req::Search { .. } if b.starts_with("itemsclose") => {
+                    // some entries, then the connection goes away before the final result
+                    let n: usize = b.trim_start_matches("itemsclose").parse().unwrap_or(0);
+                    let mut o = vec![];
+                    for k in 0..n {
+                        o.extend_from_slice(&ber::encode_min(&resp_node(m.id, &Resp::Entry { dn: format!("e={}.{},dc=x", tok, k).into_bytes(), attrs: vec![] }, None)));
+                    }
+                    let _ = s.write_all(&o);
+                    return log;
+                }
                 Req::Search { .. } if b.starts_with("trickle") => {
                     // entries 20 ms apart: every gap is far below the client's per-item timeout, the whole
                     // exchange is longer than it
@@ -175,8 +187,11 @@ pub enum Obs {
 fn kills_connection(op: &SOp) -> bool {
     match op {
         SOp::Call(Call::Unbind, _) => true,
-        SOp::Call(c, _) => c.expected().token_field().map(|f| behaviour_of(f) == "close").unwrap_or(false),
-        SOp::Stream(sp, ..) => behaviour_of(sp.base.as_bytes()) == "close",
+        SOp::Call(c, _) => c.expected().token_field().map(|f| behaviour_of(f) == "close" || behaviour_of(f).starts_with("itemsclose")).unwrap_or(false),
+        SOp::Stream(sp, ..) => {
+            let b = behaviour_of(sp.base.as_bytes());
+            b == "close" || b.starts_with("itemsclose")
+        }
         _ => false,
     }
 }
@@ -203,6 +218,17 @@ fn run_sync(script: &[SOp], sock: UnixStream) -> Vec<Obs> {
                 obs.push(Obs::Out(lift(conn.abandon(id), |_| Outcome::Unit)));
             }
             SOp::Call(call, m) => {
+                if m.twice {
+                    if m.controls.is_some() {
+                        conn.with_controls(vec![ldap3::controls::RawControl { ctype: "1.2.3.9.9".into(), crit: false, val: Some(b"superseded".to_vec()) }]);
+                    }
+                    if m.timeout_ms.is_some() {
+                        conn.with_timeout(Duration::from_secs(9));
+                    }
+                    if m.opts.is_some() {
+                        conn.with_search_options(world::search_options((1, true, 7, 7)));
+                    }
+                }
                 if let Some(c) = &m.controls {
                     conn.with_controls(world::raw_controls(c));
                 }
@@ -231,6 +257,17 @@ fn run_sync(script: &[SOp], sock: UnixStream) -> Vec<Obs> {
                 obs.push(Obs::Out(o));
             }
             SOp::Stream(s, m, ad, reads) => {
+                if m.twice {
+                    if m.controls.is_some() {
+                        conn.with_controls(vec![ldap3::controls::RawControl { ctype: "1.2.3.9.9".into(), crit: false, val: Some(b"superseded".to_vec()) }]);
+                    }
+                    if m.timeout_ms.is_some() {
+                        conn.with_timeout(Duration::from_secs(9));
+                    }
+                    if m.opts.is_some() {
+                        conn.with_search_options(world::search_options((1, true, 7, 7)));
+                    }
+                }
                 if let Some(c) = &m.controls {
                     conn.with_controls(world::raw_controls(c));
                 }
@@ -317,6 +354,17 @@ fn run_async(script: &[SOp], sock: UnixStream) -> Vec<Obs> {
                     obs.push(Obs::Out(o));
                 }
                 SOp::Call(call, m) => {
+                    if m.twice {
+                        if m.controls.is_some() {
+                            ldap.with_controls(vec![ldap3::controls::RawControl { ctype: "1.2.3.9.9".into(), crit: false, val: Some(b"superseded".to_vec()) }]);
+                        }
+                        if m.timeout_ms.is_some() {
+                            ldap.with_timeout(Duration::from_secs(9));
+                        }
+                        if m.opts.is_some() {
+                            ldap.with_search_options(world::search_options((1, true, 7, 7)));
+                        }
+                    }
                     if let Some(c) = &m.controls {
                         ldap.with_controls(world::raw_controls(c));
                     }
@@ -336,6 +384,17 @@ fn run_async(script: &[SOp], sock: UnixStream) -> Vec<Obs> {
                     obs.push(Obs::Out(o));
                 }
                 SOp::Stream(s, m, ad, reads) => {
+                    if m.twice {
+                        if m.controls.is_some() {
+                            ldap.with_controls(vec![ldap3::controls::RawControl { ctype: "1.2.3.9.9".into(), crit: false, val: Some(b"superseded".to_vec()) }]);
+                        }
+                        if m.timeout_ms.is_some() {
+                            ldap.with_timeout(Duration::from_secs(9));
+                        }
+                        if m.opts.is_some() {
+                            ldap.with_search_options(world::search_options((1, true, 7, 7)));
+                        }
+                    }
                     if let Some(c) = &m.controls {
                         ldap.with_controls(world::raw_controls(c));
                     }
@@ -400,6 +459,7 @@ pub fn gen_script(rng: &mut Rng, i: u64) -> Vec<SOp> {
             controls: if rng.chance(1, 3) { Some({ let mut c = gen::gen_req_controls(rng); c.retain(|c| c.oid != PAGED_OID.as_bytes()); c }) } else { None },
             timeout_ms: None,
             opts: if rng.chance(1, 4) { Some((rng.below(4) as u8, rng.bool(), rng.below(100) as i32, rng.below(100) as i32)) } else { None },
+            twice: rng.chance(1, 5),
         };
         let behaviour = match rng.below(12) {
             0 => "silent".to_string(),
@@ -418,7 +478,7 @@ pub fn gen_script(rng: &mut Rng, i: u64) -> Vec<SOp> {
                     5 => ("trickle25".to_string(), rng.below(2) as u8),
                     0 => ("paged7".to_string(), 2 + rng.below(2) as u8),
                     1 => (format!("items{}", rng.usize(9)), rng.below(2) as u8),
-                    2 => (behaviour.clone(), rng.below(2) as u8),
+                    2 => (if behaviour == "close" && rng.bool() { format!("itemsclose{}", rng.usize(4)) } else { behaviour.clone() }, rng.below(2) as u8),
                     _ => (format!("items{}", rng.usize(9)), 0),
                 };
                 s.base = with_behaviour(&s.base, &b);
@@ -446,7 +506,7 @@ pub fn gen_script(rng: &mut Rng, i: u64) -> Vec<SOp> {
             4 => {
                 let mut s = gen::gen_search(rng, tok);
                 s.opts = None;
-                let b = if behaviour == "silent" || behaviour == "close" { behaviour.clone() } else if rng.chance(1, 25) { "trickle25".to_string() } else { format!("items{}", rng.usize(9)) };
+                let b = if behaviour == "close" && rng.bool() { format!("itemsclose{}", rng.usize(4)) } else if behaviour == "silent" || behaviour == "close" { behaviour.clone() } else if rng.chance(1, 25) { "trickle25".to_string() } else { format!("items{}", rng.usize(9)) };
                 s.base = with_behaviour(&s.base, &b);
                 let mut m = mods.clone();
                 if b == "silent" {
@@ -556,7 +616,11 @@ fn run_script(i: u64, script: Vec<SOp>, rep: &mut Report, verbose: bool) {
     let dying_from: Option<usize> = script.iter().position(|op| match op {
         SOp::Call(Call::Unbind, _) => true,
         SOp::Call(c, _) => c.expected().token_field().map(|f| behaviour_of(f) == "close").unwrap_or(false),
-        SOp::Stream(sp, ..) => behaviour_of(sp.base.as_bytes()) == "close",
+        SOp::Stream(sp, ..) => {
+            let b = behaviour_of(sp.base.as_bytes());
+            b == "close" || b.starts_with("itemsclose")
+        }
+        SOp::Call(Call::Search(sp), _) => behaviour_of(sp.base.as_bytes()).starts_with("itemsclose"),
         _ => false,
     });
     // number of requests put on the wire by the steps before that point
@@ -600,7 +664,9 @@ fn run_script(i: u64, script: Vec<SOp>, rep: &mut Report, verbose: bool) {
             if k >= d {
                 // is_closed()/last_id() while the connection is going down are timing-dependent too
                 let comparable = !matches!(script.get(k), Some(SOp::IsClosed) | Some(SOp::LastId));
-                if comparable && k > d && failed(s) != failed(a) {
+                // (the step that loses the connection itself included: both APIs are waiting for the same
+                // reply when the connection goes away)
+                if comparable && failed(s) != failed(a) {
                     rep.violation("C14:results:one-api-fails-where-the-other-succeeds-on-a-dead-connection", format!("step {}: sync {} async {}; script {}", k, trunc(s), trunc(a), brief(&script)), replay.clone());
                 }
                 if k == d && matches!(script.get(k), Some(SOp::Call(Call::Unbind, _))) && s != a {
